@@ -11,6 +11,8 @@ vars == <<avars, hist>>
 
 Ops15 == {Op("String", "ok"), Op("String", "bad"), Op("String", "missing"), Op("Response", "ok"), Op("Response", "bad"),
           Op("Response", "missing"), Op("EvalString", "ok"), Op("EvalString", "bad"), Op("EvalFile", "ok")}
+         \cup (IF Mode = "history" THEN {Op("String", "setvar"), Op("String", "getvar"), Op("EvalString", "setvar"), Op("EvalString", "getvar"),
+                                         Op("Response", "getvar")} ELSE {})
 Cfgs == {[dir |-> "t", ext |-> ".tw", errorPage |-> e, debug |-> d] : e \in {"", "err"}, d \in BOOLEAN}
 
 Init == /\ \E c \in Cfgs : ApiInit(c)
@@ -30,6 +32,7 @@ Spec == Init /\ [][Next]_vars
 \* the results of all operations completed so far are kept in the record through hist/res at print time
 Record == [cfg |-> cfg, errpage |-> ErrPageExists, mode |-> Mode,
            ops |-> hist,
+           expok |-> [k \in 1..Len(hist) |-> Solo(hist[k].op, cfg, ErrPageExists).ok],
            sched |-> sched,
            expect |-> [g \in G |-> IF op[g].k = "Response" THEN Solo(op[g], cfg, ErrPageExists).body ELSE [page |-> "n/a", shows |-> {}]]]
 Terminal == IF Mode = "history" THEN AllDone /\ Len(hist) >= 1 ELSE AllDone /\ \A g \in G : Started(g)
